@@ -242,7 +242,7 @@ class FnExec(ExprMixin, CallMixin, StmtMixin):
         # canary / vacuity guard on every return path: the negation of the first postcondition must NOT be
         # provable (it is provable only if the hypotheses of this path are contradictory)
         first = next((e for e in c.ensures if not e.native_only), None)
-        if first is not None:
+        if first is not None and c.kind == "code":
             from .symex import Obligation
 
             goal = smt.Not(self.eval_clause(first, st))
